@@ -464,3 +464,7 @@ impl OutputLog {
         Ok(())
     }
 }
+
+#[cfg(it4innovations_hyperqueue_verif)]
+#[path = "../../verif/stream_reader_access.rs"]
+pub mod verif_access;
